@@ -2184,30 +2184,24 @@ class DebugWatch(JMCFunction):
             return return_command
 
         assert datapack.data.last_code_data is not None
+        # every piece of text goes through json.dumps: a selector, an objective or the
+        # watched source line may hold quotes and backslashes
         tellraw = 'tellraw @a ["",{"text":"[JMC] ","color":"gold","bold":true}'
         if objective != datapack.var_name:
-            tellraw += (
-                f',{{"text":"{objective}","color":"red"}},{{"text":":","color":"aqua"}}'
-            )
-        tellraw += f',{{"text":"{player} ","color":"gold"}}'
+            tellraw += f',{{"text":{json.dumps(objective)},"color":"red"}},{{"text":":","color":"aqua"}}'
+        tellraw += f',{{"text":{json.dumps(player + " ")},"color":"gold"}}'
         tellraw += ',{"text":"| ","color":"aqua","bold":true}'
-        tellraw += (
-            f',{{"score":{{"name":"{cls.tmp}","objective":"{datapack.var_name}"}}}}'
-        )
+        tellraw += f',{{"score":{{"name":{json.dumps(cls.tmp)},"objective":{json.dumps(datapack.var_name)}}}}}'
         tellraw += ',{"text":" -> ","color":"aqua","bold":true}'
-        tellraw += f',{{"score":{{"name":"{player}","objective":"{objective}"}}}}'
+        tellraw += f',{{"score":{{"name":{json.dumps(player)},"objective":{json.dumps(objective)}}}}}'
         if player.startswith("@"):
             tellraw += ',{"text":" | ","color":"aqua","bold":true}'
-            tellraw += f',{{"selector":"{player}"}}'
+            tellraw += f',{{"selector":{json.dumps(player)}}}'
         if datapack.data.watching[(player, objective)]:
             tellraw += ',{"text":" | ","color":"aqua","bold":true}'
-            tellraw += (
-                f',{{"text":"{datapack.data.last_code_data[0]}","color":"yellow"}}'
-            )
+            tellraw += f',{{"text":{json.dumps(datapack.data.last_code_data[0])},"color":"yellow"}}'
             tellraw += ',{"text":" | ","color":"aqua","bold":true}'
-            tellraw += (
-                f',{{"text":"{datapack.data.last_code_data[1]}","color":"yellow"}}'
-            )
+            tellraw += f',{{"text":{json.dumps(datapack.data.last_code_data[1])},"color":"yellow"}}'
         tellraw += "]"
         return datapack.add_raw_private_function(
             cls.function_group_name,
